@@ -1790,6 +1790,38 @@ func scannerKeywords(p *Prog) (*scanKeywords, error) {
 							}
 						}
 					}
+					// range element of an immutable package-level array (var operators = [...]string{…})
+					{
+						var gtbl, gidx ssa.Value
+						if ix, ok := arg.(*ssa.Index); ok {
+							gtbl, gidx = ix.X, ix.Index
+						} else if ld, ok := arg.(*ssa.UnOp); ok && ld.Op == token.MUL {
+							if ia, ok := ld.X.(*ssa.IndexAddr); ok {
+								gtbl, gidx = ia.X, ia.Index
+							}
+						}
+						if gtbl != nil {
+							if g := tableGlobalOf(gtbl); g != nil {
+								var ss []string
+								okAll := true
+								for _, e := range globalArrayInit(g) {
+									if sv, ok := constString(e); ok {
+										ss = append(ss, sv)
+									} else {
+										okAll = false
+									}
+								}
+								if okAll && len(ss) > 0 {
+									if err := isRangeIndexOf(gidx, gtbl); err != nil {
+										return nil, fmt.Errorf("%s: keyword list is not tried by a full forward range: %v", p.pos(c.Pos()), err)
+									}
+									k.Operators = append(k.Operators, ss...)
+									k.OperatorFn = f
+									continue
+								}
+							}
+						}
+					}
 					// range element of a list parameter (readAnyOf(candidates ...string)): the literal list passed at
 					// the single call site
 					if ld, ok := arg.(*ssa.UnOp); ok && ld.Op == token.MUL {
